@@ -65,7 +65,7 @@ def run_case(rec, case):
     rng = gen.mkrng('c04', case['seed'], case['i'])
     srv = rng.choice(['T', 'A'])
     if srv == 'A' and case.get('aio'):
-        srv = case['aio']    # asyncio server behind the aiohttp adapter
+        srv = case['aio']    # asyncio server behind the aiohttp / tornado adapter
         rec.count('histories_on_aiohttp_adapter')
     asyncm = rng.random() < 0.5
     path = rng.choice(['post', 'post', 'ws', 'ws', 'ws-upgraded',
@@ -352,6 +352,8 @@ def run_shard(spec):
              for k in range(spec['n'])]
     for c in cases[::2]:
         c['aio'] = 'H'
+    for c in cases[2::4]:
+        c['aio'] = 'N'     # ... and behind the tornado adapter
     for c in cases[1::3]:
         c['mut'] = True
     scen.run_cases(rec, cases, run_case)
